@@ -776,6 +776,9 @@ def rule_G7(prog, fixture=False):
                 continue          # index outside the affine fragment (loaded from data, products of variables ...): G2's business
             n_sites += 1
             satom = ctx.container_atom(base)
+            if satom is None:
+                res.add(okey, UNMODELLED, where, what, "the container is resized or reassigned in this function: its size is not one quantity", func=f.name, extra=extra)
+                continue
             size = Lin({satom: 1})
             base_cons = list(loop_cons) + [size]
             incomplete = []
